@@ -9,6 +9,7 @@ AUTH_FAULTS = [
     "A.type-create", "A.type-other", "A.chal-other", "A.chal-prefix", "A.chal-extended",
     "A.origin-other-host", "A.origin-case", "A.origin-trailing-slash", "A.origin-scheme",
     "A.origin-proper-prefix", "A.origin-infix", "A.origin-empty",
+    "A.expected-origin-trailing-slash", "A.expected-origin-surrounding-space",
     "A.rpid-other", "A.rpid-uppercase", "A.up-clear", "A.uv-clear-required",
     "A.id-other-credential", "A.id-padded", "A.id-std-alphabet", "A.cred-type",
     "A.sig-other-key", "A.sig-authdata-only", "A.sig-unhashed-cdj", "A.sig-other-hash",
@@ -86,6 +87,11 @@ def build_assertion(cred, *, rp_id="example.com", challenge=b"\x01" * 32, origin
         cd_origin = origin[8:-4]
     if "A.origin-empty" in faults:
         cd_origin = ""
+    # policy-side: the RP's configured origin is a different string than the one the client reports
+    if "A.expected-origin-trailing-slash" in faults:
+        expected_origin = origin + "/" if origin_list is None else [o + "/" for o in origin_list]
+    if "A.expected-origin-surrounding-space" in faults:
+        expected_origin = " " + origin if origin_list is None else [o + " " for o in origin_list]
     if "A.rpid-other" in faults:
         ad_rp = "other.example"
     if "A.rpid-uppercase" in faults:
